@@ -255,6 +255,11 @@ def decide(prop, tier, repo, seed, only_units=None, quiet=False):
                 if prop in u.get("strict_tags", []):
                     # this unit serves the property only through the clauses explicitly tagged with it
                     mine_errs = [e for e in errs if prop in err_props(e)]
+                if errs and not mine_errs and prop in u.get("strict_tags", []):
+                    # every failing clause belongs to another property — but a failed assertion is ASSUMED from there on, so a
+                    # clause of this property further down in the same function may be masked: no verdict for this property here
+                    undecided.append("unit %s: `%s` fails clauses of other properties; the clauses tagged %s behind them are not decided by this run" % (name, f, prop))
+                    continue
                 if errs and not mine_errs:
                     # every failing clause belongs to another property
                     for o in obligations:
